@@ -560,7 +560,7 @@ def coef(index, rep, db):
         from .nphooks import np_hook
         # the variable list is the parameter the loop body subscripts with the loop variable; the conversion factor is the other one
         _ps = [a.arg for a in tml.args.args if a.arg != "self"]
-        _sub = {n.value.id for n in ast.walk(loops[0]) if isinstance(n, ast.Subscript) and isinstance(n.value, ast.Name) and n.value.id in _ps}
+        _sub = {n.value.id for n in ast.walk(tml) if isinstance(n, ast.Subscript) and isinstance(n.value, ast.Name) and n.value.id in _ps}
         if len(_ps) != 2 or len(_sub) != 1:
             raise AnalysisError("to_monthly_list: expected (variable list, conversion factor)")
         pv = _sub.pop()
